@@ -124,7 +124,10 @@ def redraw(ss, d, spec, arg, c06, pu, pdt):
 
 def judge(spec, w, p, f, c06, where):
     """ the property's identity on one pair (real variates, bare variates); None if it holds """
-    name = f"ss.{spec['dist']}({', '.join(k + '=' + (('ss.' + spec['kind'] + '(' + repr(v[1:]) + ', ' + spec['unit'] + ')') if k in spec['time'] else repr(v[1:])) for k, v in spec['pars'].items())})"
+    def shown(v):
+        return {'float': repr(float(v[1])), 'int': repr(int(v[1])), 'npint': f'np.int64({v[1]})', 'f32': f'np.float32({v[1]})'}.get(v[0]) or \
+            f"<callable -> {'int64' if v[0] == 'call_int' else 'float64'} array {v[1]} + {v[2]}*(arange(n) % {v[3] if len(v) > 3 else 4})>"
+    name = f"ss.{spec['dist']}(" + ', '.join(k + '=' + (f"ss.{spec['kind']}({shown(v)}, {spec['unit']!r})" if k in spec['time'] else shown(v)) for k, v in spec['pars'].items()) + ')'
     if spec['dist'] == 'bernoulli':
         w = np.asarray(w)
         if isinstance(p, tuple):
